@@ -520,13 +520,14 @@ void vf_case(Ctx& ctx, uint64_t i) {
   // long paths (1 case in 2500): 1500-9000 points on a convex arc with steps much longer than the pattern, so that every
   // strip matters; exercises any size-dependent code path of the implementation (sectioning, batching, reserve sizes)
   if (i % 2500 == 1777 && magexp >= 30) {
-    // one long case in three is "very long" (9000-30000 points, up to 240000 parallelograms): thresholds on the number
+    // one long case in three is "very long" (9000-14000 points, pattern of 6-8 points: 54000-112000 parallelograms; a first
+    // version with up to 30000 points overran the per-case watchdog at seed 2): thresholds on the number
     // of parallelograms rather than on the number of path points (round 4, r4_c19_1: 65536 / pattern length)
     const bool very = (i / 2500) % 3 == 1;
-    const int K = very ? (int)std::exp(r.real(std::log(9000.0), std::log(30000.0))) : (int)std::exp(r.real(std::log(1500.0), std::log(9000.0)));
+    const int K = very ? r.irange(9000, 14000) : (int)std::exp(r.real(std::log(1500.0), std::log(9000.0)));
     if (very) ctx.count("cases_with_a_very_long_path");
     const double step = r.real(60, 400), curv = r.real(2e-5, 2e-4);
-    pat = gen_pattern(r, r.irange(0, 1), r.irange(3, 8), 0, 0, r.real(10, 40));
+    pat = gen_pattern(r, r.irange(0, 1), very ? r.irange(6, 8) : r.irange(3, 8), 0, 0, r.real(10, 40));
     path.clear(); double x = -0.5 * K * step, y = 0;
     for (int k = 0; k < K; ++k) { x += step * r.real(0.7, 1.3); y = curv * x * x; path.push_back(Point64((int64_t)x + r.range(-3, 3), (int64_t)y + r.range(-3, 3))); }
     c.seti("long", 1); c.seti("closed", r.chance(0.3));
